@@ -34,9 +34,10 @@ CONTROLS = ("move_mutation", "sample_time")
 # Appendix C (A4)
 # (rtol, rtol for variances).  "cl" is the loose class for non-dyadic unit changes: DESIGN planned
 # close6 (variances 2e-6), but the variational method's Newton solves stop at sqrt(machine eps) and on the
-# unchanged tree historical inputs show 1.2e-7 on means and 2.4e-6 on variances (measured over 4 seeds x all
-# option settings), so the class is 1e-5 / 1e-4; sharpness comes from the dyadic class (exact, close12).
-TOL = {"c12": (1e-12, 1e-12), "c9": (1e-9, 1e-9), "cl": (1e-5, 1e-4)}
+# unchanged tree historical inputs with few EP iterations show up to 6.2e-7 on means and 3.5e-6 on variances
+# (measured over 4 seeds x all option settings x 12 factors), so the class is 1e-4 / 1e-3, two orders above
+# the worst seen; sharpness comes from the dyadic class (observed exact, judged with close12).
+TOL = {"c12": (1e-12, 1e-12), "c9": (1e-9, 1e-9), "cl": (1e-4, 1e-3)}
 ATOL = 1e-300
 TIE = 1e-9
 
@@ -129,6 +130,17 @@ def find_input(seed, name):
 def applicable(inp, method):
     """the discrete methods need contemporaneous samples (C35 owns the rejections)"""
     return method == "variational_gamma" or "historical" not in inp.tags
+
+
+_T0 = [time.time()]
+
+
+def lap(label):
+    """section timing on stderr when VERIF_TIMING=1"""
+    if os.environ.get("VERIF_TIMING") == "1":
+        now = time.time()
+        print(f"[timing] {label}: {now - _T0[0]:.1f}s", file=sys.stderr, flush=True)
+        _T0[0] = now
 
 
 def sub_rng(seed, *key):
